@@ -435,12 +435,17 @@ def rr_conditioned(drv, cs, make_line, parser, impl_results, model_results, info
 def cancellation_conditioned(drv, cs, make_line, parser, impl_results, model_results, info=None):
     """The constituent kernels report RATIOS (deposition fractions, concentrations) whose denominators are differences of
     pow/exp terms; on trajectories the kernels were not written for (C14 draws ANY state value, e.g. a negative stored mass)
-    a denominator can cancel to 1e-9 of its operands, and one ulp of libm difference between Go and the extracted kernel
-    then shows as 1e-9 relative in the ratio.  A uniform scaling of the data does not show that sensitivity (numerator and
+    a denominator can cancel to 1e-9 of its operands or a comparison can sit within an ulp of its threshold, and one ulp of
+    libm difference between Go and the extracted kernel then shows as 1e-9 relative in the ratio.  A uniform scaling of the data does not show that sensitivity (numerator and
     denominator scale together), so it is measured with INDEPENDENT relative perturbations: every parameter, state and
     input value multiplied by 1 +- delta with its own sign (delta 1e-14 and 1e-13, four draws each, deterministic in the
     case), the extracted kernel run on each, and rrlib.conditioned_agree with the model's own tolerances deciding.
     -> None (explained) or a description"""
+    # only OUTSIDE the domain the kernels were written for (a negative state or input value, which C14 alone draws): inside
+    # it the comparison stays strict, as it always was - a value sitting exactly on a comparison threshold responds
+    # discontinuously to any perturbation, and a disagreement exactly there is what a changed comparison looks like
+    if not (any(v < 0 for v in cs['states']) or any(v < 0 for row in cs['inputs'] for v in row)):
+        return 'in-domain case: no sensitivity allowance'
     import random as _random
     r = _random.Random(repr((cs['model'], cs['params'], cs['states']))[:400])
     pcs, weights = [], []
